@@ -30,6 +30,7 @@ class World(object):
     def fresh_tag(self):
         """a new tag object from a fresh activation on the same simulator"""
         self.sim.mute = False
+        self.clf.target = True       # found by a fresh sense
         return nfc.tag.activate(self.clf, self.target())
 
     def snapshot(self):
@@ -394,6 +395,7 @@ class T4World(World):
         c.bn = 1
         c.last, c.rx, c.tx, c.pending = None, [], [], None
         c.app, c.cur = False, None
+        self.clf.target = True       # found by a fresh sense
         return nfc.tag.activate(self.clf, self.target())
 
     def target(self):
